@@ -75,6 +75,12 @@ def fromNegU128 (raw : Nat) : Option Value :=
   else if raw < 2 ^ 64 then some (.int (-1 - (raw : Int)))
   else some (.tag 3 (.bytes (minBytes raw)))
 
+/-- ciborium peeks at the head following a tag: a *definite* byte string of at most 16 bytes after tag 2/3 is a bignum to fold. -/
+def smallBytesPeek (rest : Bytes) : Option (Nat × Bytes) :=
+  match pull rest with
+  | some (.bytes (some len), rest2) => if len ≤ 16 then some (len, rest2) else none
+  | _ => none
+
 /-- segments of an indefinite-length string; `nested` ≥ 1 open indefinite heads. -/
 def chunks : (fuel : Nat) → (isText : Bool) → (nested : Nat) → Bytes → (acc : Bytes) → PR (Bytes × Bytes)
   | 0, _, _, _, _ => .oof
@@ -150,12 +156,7 @@ def parse : (fuel depth : Nat) → Bytes → PR (Value × Bytes)
         | .err => .err
         | .oof => .oof
       | .tag t =>
-        match (if t = 2 ∨ t = 3 then
-                 match pull rest with
-                 | some (.bytes (some len), rest2) =>
-                   if len ≤ 16 then some (len, rest2) else none
-                 | _ => none
-               else none) with
+        match (if t = 2 ∨ t = 3 then smallBytesPeek rest else none) with
         | some (len, rest2) =>
           if rest2.length < len then .err else
           let raw := beVal (rest2.take len)
@@ -193,9 +194,8 @@ def parseN : (fuel depth : Nat) → Nat → Bytes → PR (List Value × Bytes)
 def parseIndef : (fuel depth : Nat) → Bytes → PR (List Value × Bytes)
   | 0, _, _ => .oof
   | fuel+1, depth, bs =>
-    match pull bs with
-    | some (.brk, rest) => .ok ([], rest)
-    | _ =>
+    if bs.head? = some 0xff then .ok ([], bs.tail)      -- the break byte (`pull` gives `brk` exactly for 0xff)
+    else
       match parse fuel depth bs with
       | .ok (v, r) =>
         match parseIndef fuel depth r with
@@ -225,9 +225,8 @@ def parsePairsN : (fuel depth : Nat) → Nat → Bytes → PR (List (Value × Va
 def parsePairsIndef : (fuel depth : Nat) → Bytes → PR (List (Value × Value) × Bytes)
   | 0, _, _ => .oof
   | fuel+1, depth, bs =>
-    match pull bs with
-    | some (.brk, rest) => .ok ([], rest)
-    | _ =>
+    if bs.head? = some 0xff then .ok ([], bs.tail)
+    else
       match parse fuel depth bs with
       | .ok (k, r) =>
         match parse fuel depth r with
@@ -246,8 +245,8 @@ end
 def recursionLimit : Nat := 256
 
 /-- fuel that is always enough for input `bs` (each call consumes at least one input byte; the pair
-    functions make two calls per level). -/
-def fuelFor (bs : Bytes) : Nat := 2 * bs.length + 2
+    functions make two calls per level; see `parse_fuel` lemmas). -/
+def fuelFor (bs : Bytes) : Nat := 3 * bs.length + 3
 
 /-- `ciborium::de::from_reader(&mut slice)` : the value and the unread rest. -/
 def fromReader (bs : Bytes) : PR (Value × Bytes) := parse (fuelFor bs) recursionLimit bs
